@@ -24,7 +24,7 @@ import (
 // TestC04P2PKEForger: an adversarial raw peer that claims the victim's public key.
 func TestC04P2PKEForger(t *testing.T) {
 	const sub = "C04.p2pke_claimed_key_adversary"
-	ev.Rule(sub, "rapid: a P2PKE swarm S, an honest swarm V (the victim identity) and an adversary M that is a raw transport node speaking the P2PKE wire protocol from first principles. M knows V's public InitHello claim (key, timestamp, signature - anybody who saw a hello of V does) and holds only its own private key. Generated script of 1-10 steps: forged InitHello claiming V (with V's lifted claim) or M (fresh claim), with M's own ephemeral; after S's RespHello: forged InitDone signed by M / garbage / V's signature from another handshake; data messages under the keys M derived (counters 2..20); replays; honest tells from V in between. Oracle inside S's callback: a message whose Src identity is V's fingerprint was sent by V (payload ledger); LookupPublicKeyInHandler agrees; M's own payloads are delivered only under M's fingerprint and only after M proved its own key. non-trivial = script containing a forged hello claiming V followed by data; distinct by script")
+	ev.Rule(sub, "rapid: a P2PKE swarm S, an honest swarm V (the victim identity) and an adversary M that is a raw transport node speaking the P2PKE wire protocol from first principles. M knows V's public InitHello claim (key, timestamp, signature - anybody who saw a hello of V does) and holds only its own private key. Generated script of 1-10 steps: forged InitHello claiming V (with V's lifted claim) or M (fresh claim), with M's own ephemeral; after S's RespHello: forged InitDone signed by M / garbage / empty; a twin hello (same ephemeral, V's lifted claim) sent to V itself and to S with V's RespHello signature carried over into the InitDone for S; M's own claim dated long ago or now; data messages under the keys M derived (counters 2..20); replays; honest tells from V in between. Oracle inside S's callback: a message whose Src identity is V's fingerprint was sent by V (payload ledger); LookupPublicKeyInHandler agrees; M's own payloads are delivered only under M's fingerprint and only after M proved its own key. non-trivial = script containing a forged hello claiming V followed by data; distinct by script")
 	vHelloOnce.Do(harvestVictimClaim)
 	rapid.Check(t, func(t *rapid.T) {
 		realm := memswarm.NewRealm(memswarm.WithQueueLen(1024), memswarm.WithMTU(1<<16))
@@ -77,16 +77,20 @@ func TestC04P2PKEForger(t *testing.T) {
 			}
 		}()
 		// the adversary collects what S sends to its transport address
-		var sOut [][]byte
+		var sOut, vOut [][]byte
+		sAddr, vAddr := sInner.LocalAddr(), vInner.LocalAddr()
 		go func() {
 			for mInner.Receive(ctx, func(m p2p.Message[memswarm.Addr]) {
 				mu.Lock()
-				sOut = append(sOut, append([]byte{}, m.Payload...))
+				if m.Src == vAddr {
+					vOut = append(vOut, append([]byte{}, m.Payload...))
+				} else {
+					sOut = append(sOut, append([]byte{}, m.Payload...))
+				}
 				mu.Unlock()
 			}) == nil {
 			}
 		}()
-		sAddr := sInner.LocalAddr()
 		send := func(b []byte) { mInner.Tell(ctx, sAddr, p2p.IOVec{b}) }
 		var fp *kefake.Peer
 		var cb []byte
@@ -96,7 +100,7 @@ func TestC04P2PKEForger(t *testing.T) {
 		n := rapid.IntRange(1, 10).Draw(t, "steps")
 		seq := 0
 		for i := 0; i < n; i++ {
-			switch rapid.SampledFrom([]string{"helloV", "helloV", "helloM", "done", "done", "data", "data", "data", "victimTell", "replayLast"}).Draw(t, "step") {
+			switch rapid.SampledFrom([]string{"helloV", "helloV", "helloM", "twinV", "done", "done", "data", "data", "data", "victimTell", "replayLast"}).Draw(t, "step") {
 			case "helloV", "helloM":
 				fp = kefake.NewPeer(true)
 				cb = nil
@@ -106,10 +110,16 @@ func TestC04P2PKEForger(t *testing.T) {
 					claimedV = true
 					script = append(script, "InitHello(claim=V, lifted)")
 				} else {
+					// the adversary's own claim is dated long ago or now (later than the claim lifted from V,
+					// so that it supersedes a pending handshake opened with V's claim)
 					ts := kefake.TSBytes(0)
+					when := "old"
+					if rapid.Bool().Draw(t, "datedNow") {
+						ts, when = kefake.TSNow(), "now"
+					}
 					m = fp.InitHello(ts, kefake.MarshalKey(2), kefake.SignAs(2, kefake.PurposeTS, ts))
 					claimedV = false
-					script = append(script, "InitHello(claim=M, fresh)")
+					script = append(script, "InitHello(claim=M, fresh, dated "+when+")")
 				}
 				mu.Lock()
 				before := len(sOut)
@@ -125,6 +135,53 @@ func TestC04P2PKEForger(t *testing.T) {
 					}
 				}
 				mu.Unlock()
+			case "twinV":
+				// the same InitHello (V's lifted claim, one ephemeral key of M's) goes to V itself and to S;
+				// what V signs in its RespHello is carried over into the InitDone for S
+				p1, p2 := kefake.NewTwinPeers(true, byte(rapid.IntRange(1, 200).Draw(t, "ephemeralSeed")))
+				h1 := p1.InitHello(vClaim.ts, kefake.MarshalKey(1), vClaim.sig)
+				h2 := p2.InitHello(vClaim.ts, kefake.MarshalKey(1), vClaim.sig)
+				if !bytes.Equal(h1, h2) {
+					t.Fatalf("harness: twin hellos differ")
+				}
+				mu.Lock()
+				vBefore, sBefore := len(vOut), len(sOut)
+				mu.Unlock()
+				mInner.Tell(ctx, vAddr, p2p.IOVec{h1})
+				waitFor(100*time.Millisecond, func() bool { mu.Lock(); defer mu.Unlock(); return len(vOut) > vBefore })
+				var vSig []byte
+				mu.Lock()
+				for _, o := range vOut[vBefore:] {
+					if len(o) >= 4 && o[3] == 1 && vSig == nil {
+						if sig, _, ok := p1.RespHelloSig(o); ok {
+							vSig = sig
+						}
+					}
+				}
+				mu.Unlock()
+				if vSig == nil {
+					script = append(script, "twin hello: V did not answer")
+					continue
+				}
+				send(h2)
+				waitFor(100*time.Millisecond, func() bool { mu.Lock(); defer mu.Unlock(); return len(sOut) > sBefore })
+				ok := false
+				mu.Lock()
+				for _, o := range sOut[sBefore:] {
+					if len(o) >= 4 && o[3] == 1 && !ok {
+						if c, k := p2.ReadRespHello(o); k {
+							cb, ok = c, true
+						}
+					}
+				}
+				mu.Unlock()
+				if !ok {
+					script = append(script, "twin hello: S did not answer")
+					continue
+				}
+				fp, claimedV = p2, true
+				script = append(script, "twin InitHello(claim=V) to V and S, InitDone(sig=V's RespHello signature for the same hello)")
+				send(fp.InitDone(vSig))
 			case "done":
 				if fp == nil || !fp.HasCiphers() {
 					continue
